@@ -192,6 +192,10 @@ pub fn pocket_parse_event(text: &[u8], buflen: usize, fill: u8) -> Result<Result
                 if tags.count() != tv.len() {
                     return Err("INCONSISTENT: count() disagrees with iter".into());
                 }
+                crate::model::iter_protocol("Tags::iter()", || tags.iter(), |t| t.map(|s| s.to_vec()).collect::<Vec<_>>(), &tv)?;
+                for (i, want) in tv.iter().enumerate().take(3) {
+                    crate::model::iter_protocol("tag string iterator", || tags.iter().nth(i).unwrap(), |s| s.to_vec(), want)?;
+                }
                 Ok(Parsed {
                     consumed: n,
                     bytes: ev.as_bytes().to_vec(),
